@@ -341,6 +341,11 @@ func (st *ImmuStore) valueRefFrom(tx, hc uint64, indexedVal []byte) (ValueRef, e
 
 // Resolve ...
 func (v *valueRef) Resolve() (val []byte, err error) {
+	err = v.st.validateValueLen(int(v.valLen))
+	if err != nil {
+		return nil, err
+	}
+
 	refVal := make([]byte, v.valLen)
 
 	if v.kvmd != nil && v.kvmd.ExpiredAt(time.Now()) {
